@@ -361,7 +361,7 @@ static var Type_Method_At_Offset(
   if (inst is NULL) {
     return throw(ClassError,
       "Type '%s' does not implement class '%s'",
-      self,  cls);
+      $S(Type_Builtin_Name(self)), $S(Type_Builtin_Name(cls)));
   }
 #endif
   
@@ -371,7 +371,8 @@ static var Type_Method_At_Offset(
   if (meth is NULL) {
     return throw(ClassError,
       "Type '%s' implements class '%s' but not the method '%s' required",
-      self,  cls, $(String, (char*)method_name));  
+      $S(Type_Builtin_Name(self)), $S(Type_Builtin_Name(cls)), 
+      $(String, (char*)method_name));  
   }
 #endif
   
